@@ -5,7 +5,7 @@
    queue entries are scanned). *)
 From Hub Require Import Base.Prelude Base.Arith Model.Types Model.Keeper Model.Handlers Model.Hooks Model.Step.
 From Hub Require Import Proofs.Tactics Proofs.Sorting Proofs.Frames Proofs.KeysInv Proofs.Lifecycle Proofs.IndexSess Proofs.IndexNode
-  Proofs.InvDefs Proofs.IndexSub Proofs.IndexSub2 Proofs.IndexAll Proofs.Link Proofs.Witness Proofs.Cause Proofs.CauseSess.
+  Proofs.InvDefs Proofs.IndexSub Proofs.IndexSub2 Proofs.IndexAll Proofs.Link Proofs.Witness Proofs.Cause Proofs.CauseSess Proofs.CauseNode.
 
 (* The life-cycle invariant (indices exact, parameters sane, every session linked to a live
    subscription which it cannot outlive) holds in every state of every history with increasing block
@@ -158,9 +158,17 @@ Theorem C04_pending_session_deadline_fixed : forall s o s' id x x',
   ss_status x = SPending -> ss_status x' = SPending /\ ss_inactive_at x' = ss_inactive_at x.
 Proof. exact pending_session_deadline_fixed. Qed.
 
+(* NODES: an active node stops being active, across one whole operation, only by its own MsgUpdateStatus(inactive)
+   or in the end-blocker of a block at or after the end of its lease (a price sweep in the same end-blocker never
+   deactivates it). *)
+Theorem C04_node_deactivation_cause : forall s o s' a n,
+  life_inv s -> step s o = OOk s' -> node_act s !! a = Some n -> node_act s' !! a = None ->
+  (exists from, o = OTx (MNodeUpdateStatus from SInactive) /\ ta_bytes from = a) \/ (o = OEnd /\ nd_inactive_at n <= now s).
+Proof. exact node_deactivation_cause. Qed.
+
 (* Still checked by the implementation-side monitor only: "settled exactly once" at the level of EVENTS
    (the model settles in the same step that deletes the record, and removed identifiers never return:
-   C04_removed_stays_removed), and the cause of a NODE's deactivation. *)
+   C04_removed_stays_removed). *)
 
 (* non-vacuity: the witness history satisfies the hypotheses, and in its last block a session was
    settled and removed exactly at its deadline while the other one lives on *)
@@ -192,3 +200,4 @@ Print Assumptions C04_subscription_untouched_otherwise.
 Print Assumptions C04_session_demotion_cause.
 Print Assumptions C04_session_removal_cause.
 Print Assumptions C04_pending_session_deadline_fixed.
+Print Assumptions C04_node_deactivation_cause.
